@@ -53,6 +53,8 @@ def analyze(sched, res):
             V.append(("C14", k, "update() returned %r, an accepted write %s in this call" % (st["update"], "happened" if want_flag else "did not happen")))
         if is_set and bool(orc.get("changed")) != bool(st["changed"]):
             V.append(("C14", k, "Set request: tree %s but reference says %s" % ("changed" if st["changed"] else "unchanged", orc)))
+            if orc.get("changed") and st["before"]["state"] in ("Alive", "Subscribe", "Wait", "Init"):
+                V.append(("C13", k, "a Set delivered during the start-up sequence (state %s) was not applied: it cannot be reflected in the initial dump" % st["before"]["state"]))
         # ---------------------------------------------------------------- epoch bookkeeping
         reset_first = (not b["connected"]) or sin.get("api") == "reset"
         if reset_first:
@@ -148,6 +150,12 @@ def analyze(sched, res):
                 and "msg2" not in sin and not sin.get("api"):
             if b["state"] == "Single" and b["connected"] and a["state"] == "Multipart":
                 V.append(("C14", k, "request %s with an over-long response topic / correlation data was accepted as a multipart request" % json.dumps(h)[:300]))
+        # C10: a dump requested over MQTT (empty payload on an internal node, no response topic) by an idle client is started
+        if h is not None and not h.get("payload") and "internal" in orc and "resp" not in h and len(h.get("cd", [])) <= 32 \
+                and "msg2" not in sin and not sin.get("api") and b["state"] == "Single" and b["connected"] and a["connected"] and not reset_first and b["can_publish"] and a["can_publish"] and not big_cfg:
+            # (a client that cannot publish discards empty-payload requests before looking at them: minimq's NotReady)
+            if not starts_multipart(h, orc, st) and a["state"] != "Multipart":
+                V.append(("C10", k, "dump request %s delivered to the idle client was not started (state %s afterwards, nothing pending)" % (json.dumps(h)[:200], a["state"])))
         # start of a multipart answer requested over MQTT
         if h is not None and starts_multipart(h, orc, st) and not (state0 in ("Single", "Multipart")):
             V.append(("C07", k, "multipart request %s accepted in state %s: the initial dump / another answer is still pending" % (json.dumps(h)[:200], state0)))
